@@ -1797,6 +1797,19 @@ void Interpreter::assign_array_element(const std::string &name, int64_t index,
                     throw std::runtime_error(
                         "Pointer array index out of bounds in assignment");
                 }
+                // 要素の宣言型で範囲チェック（a[i] = v と同じ規則。
+                // ポインタ配列・構造体配列は対象外）
+                TypeInfo declared_elem_type =
+                    (target_array->type >= TYPE_ARRAY_BASE)
+                        ? static_cast<TypeInfo>(target_array->type -
+                                                TYPE_ARRAY_BASE)
+                        : elem_type;
+                if (declared_elem_type != TYPE_POINTER &&
+                    !target_array->is_pointer && !target_array->is_struct) {
+                    value = range_checked_store_value(
+                        declared_elem_type, target_array->is_unsigned, value,
+                        name + "[" + std::to_string(index) + "]");
+                }
                 target_array->array_values[effective_index] = value;
             }
 
@@ -1876,6 +1889,13 @@ void Interpreter::assign_array_element(const std::string &name, int64_t index,
                                  target_array->array_values.size())) {
                     throw std::runtime_error(
                         "Pointer array index out of bounds in assignment");
+                }
+                // 要素の宣言型で範囲チェック（a[i] = v と同じ規則）
+                if (base_type != TYPE_POINTER && !target_array->is_pointer &&
+                    !target_array->is_struct) {
+                    value = range_checked_store_value(
+                        base_type, target_array->is_unsigned, value,
+                        name + "[" + std::to_string(index) + "]");
                 }
                 target_array->array_values[index] = value;
             }
